@@ -33,10 +33,16 @@ def reg1_2(ctx: Ctx) -> None:
         if not isinstance(m, ast.FunctionDef):
             continue
         params = [a.arg for a in m.args.args[1:]]
+        # a local dict that becomes self._data (built by an explicit loop) counts as the table; loop variables over the
+        # constructor's items count as keys
+        data_names = {"self._data"} | {norm(a_.value) for a_ in ast.walk(m) if isinstance(a_, ast.Assign) and norm(a_.targets[0]) == "self._data" and isinstance(a_.value, ast.Name)}
+        for l_ in ast.walk(m):
+            if isinstance(l_, ast.For) and isinstance(l_.target, ast.Tuple) and norm(l_.iter) in params:
+                params = params + [norm(e) for e in l_.target.elts]
         for n in ast.walk(m):
             # keyed accesses
             keyexpr = None
-            if isinstance(n, ast.Subscript) and norm(n.value) == "self._data":
+            if isinstance(n, ast.Subscript) and norm(n.value) in data_names:
                 keyexpr = n.slice
             elif isinstance(n, ast.Call) and isinstance(n.func, ast.Attribute) and norm(n.func.value) == "self._data" \
                     and n.func.attr in ("pop", "get", "setdefault", "__getitem__", "__delitem__", "__contains__") and n.args:
@@ -54,7 +60,7 @@ def reg1_2(ctx: Ctx) -> None:
         # stores keep the key itself as element 0
         for n in ast.walk(m):
             val = None
-            if isinstance(n, ast.Assign) and isinstance(n.targets[0], ast.Subscript) and norm(n.targets[0].value) == "self._data":
+            if isinstance(n, ast.Assign) and isinstance(n.targets[0], ast.Subscript) and norm(n.targets[0].value) in data_names:
                 val = n.value
                 keyname = norm(n.targets[0].slice.args[0]) if isinstance(n.targets[0].slice, ast.Call) and n.targets[0].slice.args else None
             elif isinstance(n, ast.Call) and isinstance(n.func, ast.Attribute) and norm(n.func.value) == "self._data" and n.func.attr == "setdefault" and len(n.args) == 2:
@@ -73,7 +79,19 @@ def reg1_2(ctx: Ctx) -> None:
                 else:
                     ctx.R.fail("REG-2", mod, n, f"IdentityDict.{m.name} must store the pair (key, value) with the key itself first: otherwise the key may die and its id be reused by another code object")
         # value-returning accessors project element 1
-        if m.name in ("__getitem__", "pop", "setdefault"):
+        if m.name in ("__getitem__", "pop", "setdefault", "popitem"):
+            # unpacking form: k, v = self._data[...] ; return v
+            for a_ in ast.walk(m):
+                if isinstance(a_, ast.Assign) and isinstance(a_.targets[0], ast.Tuple) and len(a_.targets[0].elts) == 2 and all(isinstance(e, ast.Name) for e in a_.targets[0].elts) \
+                        and "self._data" in norm(a_.value) and m.name != "popitem":
+                    k_, v_ = (e.id for e in a_.targets[0].elts)
+                    for r in ast.walk(m):
+                        if isinstance(r, ast.Return) and isinstance(r.value, ast.Name) and r.value.id in (k_, v_):
+                            n_proj += 1
+                            if r.value.id == v_:
+                                ctx.R.ok("REG-2", f"IdentityDict.{m.name}: returns the second element (the value) of the unpacked pair")
+                            else:
+                                ctx.R.fail("REG-2", mod, r, f"IdentityDict.{m.name} must return element 1 of the stored pair (the value), not the key or the pair")
             for r in ast.walk(m):
                 if isinstance(r, ast.Return) and r.value is not None and "self._data" in norm(r.value):
                     n_proj += 1
